@@ -4,3 +4,4 @@ pub mod world;
 pub mod types;
 pub mod tracker;
 pub mod run;
+pub mod gen;
